@@ -401,7 +401,7 @@ def plan_C04(tier, seed):
 
 
 def plan_C09(tier, seed):
-    return infer_plan("c09", tier, ["accepted-but-undecodable", "missing-required-accepted"],
+    return infer_plan("c09", tier, ["accepted-but-undecodable", "missing-required-accepted", "mutation-verdict-differs"],
                       INFER_UNIVERSE + "C09: every single-point mutation of every valid encoding (drop a key, add a key, a key in "
                       "another letter case, swap a value's JSON type, push an integer past each sized bound, add a fraction, null, "
                       "array one longer/shorter) that the inferred schema still accepts (validated as a document with exact "
@@ -411,7 +411,8 @@ def plan_C09(tier, seed):
                       "Second form: every document obtained by deleting ONE member that InferSpec lists as required at its place "
                       "must be rejected. Third form (from the schema's side): documents BUILT to satisfy the inferred schema "
                       "(per node: each declared type, bounds, all/required-only properties, each alternative per property, "
-                      "array lengths) that it accepts must decode as well")
+                      "array lengths) that it accepts must decode as well. Fourth: every mutation gets the same verdict from the inferred "
+                      "schema as from the specified one (InferSpec) - null in a non-nullable place is refused")
 
 
 def plan_C16(tier, seed):
